@@ -53,6 +53,51 @@ end
 def conforms (sk : Sk) (trace : List Access) (cursor : Nat) : Bool :=
   decide (trace = expectedTrace sk 0) && cursor == 0
 
+/-! ### state inside `if` / `match` arms: a call touches the cells outside arms and those of the arms taken
+
+With a stateful construct inside an arm a call no longer performs every access of `expectedTrace`: it performs, in
+layout order, the accesses of the cells it reaches.  `selTrace sk b tr` consumes from the front of the recorded trace
+`tr` what ONE optional visit of the cell `sk` at base `b` may record — a `mem` / `delay` cell: its access or nothing; a
+function instance with `self`: nothing, or `get`, a sub-selection of its cells, `set` (both mandatory once the instance
+is entered); a function instance without `self`: a sub-selection of its cells — and returns the rest (`none`: an entered
+instance did not write `self` back).  The choice is greedy (an access at the cell's base of the cell's kind belongs to
+the cell), which is sound; `conformsSel` demands that the root instance is entered and the whole trace is consumed. -/
+
+/-- drop `x` from the front if it is there -/
+def dropHead (x : Access) (tr : List Access) : List Access := if tr.head? = some x then tr.tail else tr
+
+mutual
+def selTrace : Sk → Nat → List Access → Option (List Access)
+  | .mem _, b, tr => some (dropHead ⟨.mem, b, 1⟩ tr)
+  | .delay n, b, tr => some (dropHead ⟨.delay, b, delayExtra + n⟩ tr)
+  | .feed _, _, tr => some tr
+  | .fn cs, b, tr =>
+    match cs with
+    | .feed s :: rest =>
+      if tr.head? = some ⟨.get, b, s⟩ then
+        match selTraceL rest (b + s) tr.tail with
+        | some tr' => if tr'.head? = some ⟨.set, b, s⟩ then some tr'.tail else none
+        | none => none
+      else some tr
+    | cs => selTraceL cs b tr
+def selTraceL : List Sk → Nat → List Access → Option (List Access)
+  | [], _, tr => some tr
+  | c :: cs, b, tr =>
+    match selTrace c b tr with
+    | some tr' => selTraceL cs (b + c.size) tr'
+    | none => none
+end
+
+/-- the root instance is entered when it has a `self` cell: `self` is read first -/
+def rootEntered : Sk → List Access → Bool
+  | .fn (.feed s :: _), tr => decide (tr.head? = some ⟨.get, 0, s⟩)
+  | _, _ => true
+
+/-- verdict of the generalised checker on one dsp call: the recorded accesses are an in-order sub-selection of the
+layout's accesses in which every entered function instance reads `self` first and writes it last; cursor back at 0 -/
+def conformsSel (sk : Sk) (trace : List Access) (cursor : Nat) : Bool :=
+  rootEntered sk trace && decide (selTrace sk 0 trace = some []) && cursor == 0
+
 /-- `a` touches exactly the words of a leaf cell of `sk` (region starting at `b`) of the right kind -/
 inductive TouchesLeaf : Sk → Nat → Access → Prop
   | mem (s b) : TouchesLeaf (.mem s) b ⟨.mem, b, 1⟩
